@@ -72,6 +72,16 @@ for _m in ("contracts.c08_state", "contracts.c08_frames"):
 for _t in ("src/linter_config/ignore.py::IgnoreDirectiveParser.__init__", "src/linter_config/ignore.py::get_ignore_parser",
            "src/linter_config/ignore.py::clear_ignore_parser_cache"):
     DEPENDS.append((_t, "life cycle of the shared parser and of its decision memo"))
+# repository-level patterns are applied by Orchestrator.lint_file through the parser of ITS project root: in parallel mode
+# every worker builds its own Orchestrator, so the parent's root must reach it (work item -> _lint_file_worker -> __init__)
+for _m in ("contracts.c10_orchestrator", "contracts.c07_parallel"):
+    try:
+        __import__(_m)
+    except BaseException as _e:  # noqa
+        _IMPORT_ERRORS[_m] = repr(_e)[:200]
+for _t in ("src/orchestrator/core.py::_lint_file_worker", "src/orchestrator/core.py::Orchestrator._execute_parallel_linting",
+           "src/orchestrator/core.py::Orchestrator.__init__", "src/orchestrator/core.py::Orchestrator.lint_file"):
+    DEPENDS.append((_t, "the orchestrator that applies the repository patterns is built for the linted project's root"))
 for _t, _why in DEPENDS:
     _c = _api.REGISTRY.get(_t)
     if _c is not None and "C04" not in _c.props:
